@@ -157,6 +157,7 @@ class Module:
             return f"&{base}" if ty[2] == "ref" else f"Box<{base}>"
         if k == "opt":
             return ("Option<%s>" if ty[1] == "std" else "DiplomatOption<%s>") % self.rust_ty(ty[2])
+        if k == "optunit": return "Option<()>"          # only as the return of a write-out method (declaration checks)
         if k == "optslice": return f"Option<&[{PRIMS[ty[1]][0]}]>"
         if k == "optstr": return "Option<&str>"
         if k == "res":
@@ -217,6 +218,7 @@ class Module:
             return f"Some({inner})" if ty[1] == "std" else f"Some({inner}).into()"
         if k == "res":
             return f"Ok({self.rust_make(ty[1], v['ok'])})" if "ok" in v else f"Err({self.rust_make(ty[2], v['err'])})"
+        if k == "optunit": return "None" if v is None else "Some(())"
         if k == "unit": return "()"
         if k == "zst": return "Zs {}"
         if k == "ordering": return {-1: "core::cmp::Ordering::Less", 0: "core::cmp::Ordering::Equal", 1: "core::cmp::Ordering::Greater"}[v]
